@@ -20,6 +20,9 @@ Inductive case :=
     (* a schedule of lock regions on one shared MemCachedStore over a base store: batch writes, the three regions
        of Persist, and ONE reader (SSnap = SeekAsync returned: snapshot taken and ps captured; SRead = its goroutine
        reads the lower store); impl = what the reader got *)
+| CLockGet (bk : N) (acts : list sact) (k : key) (impl : option val)
+    (* Get of k on the shared layer of a schedule system while (or after) a Persist is in flight: the schedule acts
+       contains no reader step; no lock region of Persist changes the one map, so the expected value is its lookup there *)
 | CGet (bk : N) (ops : list op) (k : key) (impl : option val)
     (* Get of k on the top layer after ops *)
 | CSeek (bk : N) (ops : list op) (api : N) (id : N) (r : range) (lim : N) (impl : kvs).
@@ -109,6 +112,25 @@ Definition check_case (c : case) : N :=
       | Some b =>
           if forallb sact_ok acts && bytes_okb (rprefix r) && bytes_okb (rstart r) && negb (isnil (rprefix r)) && (rdepth r =? 0)
           then check_sched b acts r impl else 3
+      | None => 3
+      end
+  | CLockGet bk acts k impl =>
+      match backend_of bk with
+      | Some b =>
+          if forallb sact_ok acts && negb (isnil k) && bytes_okb k && negb (existsb is_snap acts) && negb (existsb is_read acts) then
+            let c0 := {| cbk := b; cm := []; ctemp := None; cx := []; rsnap := None; rans := None |} in
+            let norm := fun a => match a with SW w => SW (sorted_batch w) | x => x end in
+            let c := crun c0 (map (fun a => to_action (R [] [] false 0) (norm a)) acts) in
+            (* Get is one read-locked region: maps, then s.ps.Get (tempstore's maps, then the base) *)
+            let model := match lookup k (cm c) with
+                         | Some ov => ov
+                         | None => match ctemp c with
+                                   | Some (t, _) => match lookup k t with Some ov => ov | None => lookup k (cx c) end
+                                   | None => lookup k (cx c)
+                                   end
+                         end in
+            code_of (option_eqb keq model impl) (option_eqb keq (lookup k (cflat c)) impl)
+          else 3
       | None => 3
       end
   | CGet bk ops k impl =>
